@@ -107,8 +107,15 @@ class InMemoryMessageBroker(MessageBrokerT):
         for msg in q.processing:
             if msg.key.id_ == key.id_:
                 q.processing.remove(msg)
+                self.__put_in_queue(key, payload, params)
                 break
-        self.__put_in_queue(key, payload, params)
+        else:
+            # the message isn't in flight (anymore), e.g. its consumer has given it back:
+            # adding the new version would leave two copies of the message
+            logger.warning(
+                "Can't requeue message with id: {id_}, as it's not being processed.",
+                extra={"id_": key.id_},
+            )
 
         await asyncio.sleep(0)
 
